@@ -42,6 +42,14 @@ TOP = {
     "f_optpos_empty_str": ("def f{u}(a: str = '', /) -> int:\n    return 1\n", [("fun", "f{u}", ["optpos"])]),
     "f_optpos_none": ("def f{u}(a: int | None = None, /) -> int:\n    return 1\n", [("fun", "f{u}", ["optpos"])]),
     "f_optpos_none_untyped": ("def f{u}(a=None, /) -> int:\n    return 1\n", [("fun", "f{u}", ["optpos"])]),
+    # defaults that are no literals: the stub cannot show them, the parameter stays optional in Python
+    "f_value_list": ("def f{u}(a: list[int] = []) -> int:\n    return 1\n", [("fun", "f{u}", ["value"])]),
+    "f_value_const": ("def f{u}(a: int = CONST20) -> int:\n    return 1\n", [("fun", "f{u}", ["value"])]),
+    "f_value_call": ("def f{u}(a: int = int()) -> int:\n    return 1\n", [("fun", "f{u}", ["value"])]),
+    "f_value_binop": ("def f{u}(a: int = 1 + 2) -> int:\n    return 1\n", [("fun", "f{u}", ["value"])]),
+    "f_value_kwonly_list": ("def f{u}(*, a: list[int] = []) -> int:\n    return 1\n", [("fun", "f{u}", ["value"])]),
+    "f_list2_in_optional": ("def f{u}(a: Optional[list[int, str]] = None) -> int:\n    return 1\n", [("fun", "f{u}", ["list2"])]),
+    "f_list2_in_dict": ("def f{u}(a: dict[str, list[int, str]]) -> int:\n    return 1\n", [("fun", "f{u}", ["list2"])]),
     "f_reqkw": ("def f{u}(*, a: int) -> int:\n    return 1\n", [("fun", "f{u}", ["reqkw"])]),
     "f_value": ("def f{u}(a: int = not 1) -> int:\n    return 1\n", [("fun", "f{u}", ["value"])]),
     "f_result_set": ("def f{u}(a: int) -> set[int]:\n    return set()\n", [("fun", "f{u}", ["set"])]),
@@ -69,7 +77,7 @@ TOP = {
     "f_typevar_bound_tuple": ("def f{u}(a: TIB) -> int:\n    return 1\n", [("fun", "f{u}", ["tuple"])]),
     "e_enum": ("class E{u}(Enum):\n    A{u} = 1\n", [("enum", "E{u}", [])]),
 }
-HEADER = "from enum import Enum\nfrom typing import Generic, TypeVar\n\nTCB = TypeVar(\"TCB\", covariant=True, bound=tuple[int, str])\nTCS = TypeVar(\"TCS\", set[int], int)\nTG = TypeVar(\"TG\")\nTIB = TypeVar(\"TIB\", bound=tuple[int, str])\n\n\nclass GenBase(Generic[TG]):\n    pass\n\n\ndef untyped_call():\n    return object()\n\n\nclass BaseA:\n    pass\n\n\nclass BaseB:\n    pass\n\n\n"
+HEADER = "from enum import Enum\nfrom typing import Generic, Optional, TypeVar\n\nCONST20 = 3\nTCB = TypeVar(\"TCB\", covariant=True, bound=tuple[int, str])\nTCS = TypeVar(\"TCS\", set[int], int)\nTG = TypeVar(\"TG\")\nTIB = TypeVar(\"TIB\", bound=tuple[int, str])\n\n\nclass GenBase(Generic[TG]):\n    pass\n\n\ndef untyped_call():\n    return object()\n\n\nclass BaseA:\n    pass\n\n\nclass BaseB:\n    pass\n\n\n"
 
 # members inside one class body: name -> (source template indented by 4, [(kind, name, markers)])
 MEMBERS = {
